@@ -155,9 +155,14 @@ def register(i, kinds):
             yield {"tick": i + 1}
 
 
+SAME_SDL = [False]
+
+
 def cook(i):
     from tartiflette import create_engine
-    return harness.run(create_engine(sdl_of(i), schema_name="bundle%d" % i))
+    # identical SDL text for every bundle (mode "same-sdl") or per-bundle differences
+    sdl = (SDL + "\nextend type Item { only0: Int stock(n: Int = 0): Int }\nextend enum Level { L0 }\n") if SAME_SDL[0] else sdl_of(i)
+    return harness.run(create_engine(sdl, schema_name="bundle%d" % i))
 
 
 def probe(engine, variables_value):
@@ -199,7 +204,9 @@ def run_history(events):
     """events: list of ("reg", i, kinds tuple) | ("cook", i) | ("badcook", kind).  Returns {bundle: probe answers (twice, alternating)}."""
     engines = {}
     for ev in events:
-        if ev[0] == "reg":
+        if ev[0] == "mode":
+            SAME_SDL[0] = True
+        elif ev[0] == "reg":
             register(ev[1], ev[2])
         elif ev[0] == "badcook":
             failing_cook(ev[1])
@@ -283,6 +290,11 @@ def all_histories(tier):
     hs.extend(granular_orders())
     hs.extend(with_failed_cook(2))
     hs.extend(with_failed_cook(3))
+    # the same SDL *text* for every bundle (only the registered implementations differ)
+    for n in (2, 3):
+        hs.extend([("mode", "same-sdl")] + h for h in orders(n))
+    if tier == "thorough":
+        hs.extend([("mode", "same-sdl")] + h for h in orders(4))
     if tier == "thorough":
         hs.extend(orders(4))
     return hs
@@ -297,11 +309,11 @@ def shards(tier, seed):
 _ALONE = {}
 
 
-def alone(i):
-    if i not in _ALONE:
-        res = in_child(run_history, [("reg", i, tuple(KINDS)), ("cook", i)])
-        _ALONE[i] = res
-    return _ALONE[i]
+def alone(i, same=False):
+    if (i, same) not in _ALONE:
+        res = in_child(run_history, ([("mode", "same-sdl")] if same else []) + [("reg", i, tuple(KINDS)), ("cook", i)])
+        _ALONE[(i, same)] = res
+    return _ALONE[(i, same)]
 
 
 def run_shard(item):
@@ -313,9 +325,9 @@ def run_shard(item):
         res = in_child(run_history, h)
         out["counts"]["histories"] += 1
         out["counts"]["events"] += len(h)
-        nb = len({e[1] for e in h if e[0] != "badcook"})
+        nb = len({e[1] for e in h if e[0] not in ("badcook", "mode")})
         out["tables"]["bundles"][str(nb)] = out["tables"]["bundles"].get(str(nb), 0) + 1
-        hh = [e for e in h if e[0] != "badcook"]
+        hh = [e for e in h if e[0] not in ("badcook", "mode")]
         interleaved = any(hh[j][1] != hh[j + 1][1] for j in range(len(hh) - 1))
         if interleaved:
             out["counts"]["nontrivial"] += 1
@@ -324,13 +336,13 @@ def run_shard(item):
                                       "summary": "history %r raised: %s" % (h, res[1][-800:]), "replay": {"history": h}})
             continue
         for b, answers in res.items():
-            ref = alone(int(b))
+            ref = alone(int(b), same=(h[0][0] == "mode"))
             if isinstance(ref, list):
                 out["machinery"].append("bundle %s cannot be built alone: %s" % (b, ref[1][-300:]))
                 continue
             out["counts"]["probes"] += len(answers)
             if answers != ref[b]:
-                kinds = ("after-failed-cook" if any(e[0] == "badcook" for e in h)
+                kinds = ("same-sdl-text" if h[0][0] == "mode" else "after-failed-cook" if any(e[0] == "badcook" for e in h)
                          else "granular" if any(len(e) == 3 and len(e[2]) == 1 for e in h) else "atomic")
                 out["violations"].append({
                     "signature": "engine-differs-from-alone|%d-bundles|%s" % (nb, kinds),
@@ -354,7 +366,7 @@ def finish(agg, tier):
         "rule": "states = histories, one forked process each: ALL orders of reg(i)/cook(i) events (reg before cook) for 2 bundles (6), 3 "
                 "bundles (90)%s, and for 2 bundles with each of the 5 registration kinds (resolvers, type resolver, scalar, directive, "
                 "subscription) as a separate event (924 interleavings), and for 2 / 3 bundles with a *failing* cook of another schema name (resolver "
-                "for a missing field, syntax error, scalar without implementation) inserted at every position (90 + 630). Bundles share every type/field/scalar/directive/subscription name "
+                "for a missing field, syntax error, scalar without implementation) inserted at every position (90 + 630), and all orders of 2 / 3 bundles given the *same SDL text* (96). Bundles share every type/field/scalar/directive/subscription name "
                 "and differ in behaviour. Each cooked engine is probed twice in alternation (query with literal and variable scalar "
                 "input, abstract type, directive, introspection, subscription) and compared with the same bundle built alone in a fresh "
                 "process. non-trivial = histories that interleave events of different bundles"
@@ -370,7 +382,7 @@ def replay(rec):
         return [{"summary": res[1][-600:]}]
     out = []
     for b, answers in res.items():
-        ref = alone(int(b))
+        ref = alone(int(b), same=(h[0][0] == "mode"))
         if answers != ref[b]:
             out.append({"summary": "bundle %s: %s vs alone %s" % (b, answers[0][:500], ref[b][0][:500])})
     return out
